@@ -11,6 +11,9 @@ import (
 	"reflect"
 	"strconv"
 	"strings"
+	"sync"
+	"sync/atomic"
+	"time"
 	"unicode/utf8"
 
 	jmespath "github.com/jmespath/go-jmespath"
@@ -143,7 +146,9 @@ func doSearch(expr string, docText string, unordered bool) outcome {
 	before := jmespath.VerifCanon(doc)
 	var res interface{}
 	var err error
+	t0 := time.Now()
 	p, _ := safely(func() { res, err = jmespath.Search(expr, doc) })
+	soloTime := time.Since(t0)
 	o.base = searchBase(res, err, p)
 	// An expression that observes the unspecified iteration order of object members (through `*`,
 	// keys(), values()) legitimately answers differently from run to run; the property is stated
@@ -205,6 +210,34 @@ func doSearch(expr string, docText string, unordered bool) outcome {
 			if jmespath.VerifCanon(doc) != before {
 				o.flags = append(o.flags, "docmut2")
 			}
+			// concurrent use of the compiled expression (a sample of the cases: those whose text hashes to
+			// 0 mod 8): 8 goroutines released together, 60 searches each, every answer must be the solo answer
+			if o.base != "unstable" && (unordered || !mayObserveOrder(expr)) && fnv32(expr)%8 == 0 && soloTime < 2*time.Millisecond {
+				want := norm(o.base)
+				var wg sync.WaitGroup
+				start := make(chan struct{})
+				var bad int32
+				for gi := 0; gi < 8; gi++ {
+					wg.Add(1)
+					go func() {
+						defer wg.Done()
+						<-start
+						for it := 0; it < 60 && atomic.LoadInt32(&bad) == 0; it++ {
+							var r2 interface{}
+							var e2 error
+							p2, _ := safely(func() { r2, e2 = jp.Search(doc) })
+							if norm(searchBase(r2, e2, p2)) != want {
+								atomic.StoreInt32(&bad, 1)
+							}
+						}
+					}()
+				}
+				close(start)
+				wg.Wait()
+				if bad != 0 {
+					o.flags = append(o.flags, "concurrent")
+				}
+			}
 		}
 	}
 	if unordered {
@@ -213,6 +246,14 @@ func doSearch(expr string, docText string, unordered bool) outcome {
 	return o
 }
 
+
+func fnv32(s string) uint32 {
+	h := uint32(2166136261)
+	for i := 0; i < len(s); i++ {
+		h = (h ^ uint32(s[i])) * 16777619
+	}
+	return h
+}
 
 func mayObserveOrder(expr string) bool {
 	return strings.Contains(expr, "*") || strings.Contains(expr, "keys") || strings.Contains(expr, "values")
